@@ -33,7 +33,8 @@ let render (r : result) : string =
     (if r.closed then "closed" else "blocked") (out_class r.out)
 
 let runclass_of (s : string) : runclass =
-  match s with "ok" -> ROk | "canceled" -> RCanceled | "hang" -> RHang | "err:noammo" -> RNoAmmo | _ -> RErr
+  match s with "ok" -> ROk | "canceled" -> RCanceled | "hang" -> RHang | "err:noammo" -> RNoAmmo
+             | "construct" -> RRefused | _ -> RErr
 
 (* a sequence item x<idx> (content differs from the file) becomes an id no entry has *)
 let obs_ids (s : string) : int list =
@@ -59,6 +60,7 @@ let predict (c : string) (obs : string) : string * string * bool =
       let bnd = (match bound cf.limit cf.passes (nat_of_int src_len) with Some b -> Some (int_of_nat b) | None -> None) in
       let fuel cnt = nat_of_int (60 * ((max cnt (match bnd with Some b -> b | None -> 0)) + 1) * (n + 2)) in
       let one preload ocount oline =
+        if constructor_refuses (KHttp (k, preload)) es then "0 - closed construct" else
         (match cancel_m with
          | None -> render (deliver k preload cf es None (fuel ocount))
          | Some _ ->
